@@ -1,0 +1,82 @@
+//go:build verif
+// +build verif
+
+package scanner
+
+import (
+	"github.com/z7zmey/php-parser/pkg/position"
+	"github.com/z7zmey/php-parser/pkg/token"
+)
+
+// VerifLexState is the projection of the scanner state that the
+// verification harness records after every Lex() call.
+type VerifLexState struct {
+	Mode  string
+	Top   int
+	Stack []string
+	P     int
+	Ts    int
+	Te    int
+	Lines int
+	Label string
+}
+
+var verifModeNames = map[int]string{
+	lexer_en_main:                             "main",
+	lexer_en_html:                             "html",
+	lexer_en_php:                              "php",
+	lexer_en_property:                         "property",
+	lexer_en_nowdoc:                           "nowdoc",
+	lexer_en_heredoc:                          "heredoc",
+	lexer_en_backqote:                         "backqote",
+	lexer_en_template_string:                  "template_string",
+	lexer_en_heredoc_end:                      "heredoc_end",
+	lexer_en_string_var:                       "string_var",
+	lexer_en_string_var_index:                 "string_var_index",
+	lexer_en_string_var_name:                  "string_var_name",
+	lexer_en_halt_compiller_open_parenthesis:  "halt_open",
+	lexer_en_halt_compiller_close_parenthesis: "halt_close",
+	lexer_en_halt_compiller_close_semicolon:   "halt_semi",
+	lexer_en_halt_compiller_end:               "halt_end",
+	lexer_error:                               "error",
+}
+
+// VerifModeName names a ragel entry state; other states are "cs<N>".
+func VerifModeName(cs int) string {
+	if n, ok := verifModeNames[cs]; ok {
+		return n
+	}
+	return "other"
+}
+
+// VerifState returns the current scanner state.
+func (lex *Lexer) VerifState() VerifLexState {
+	st := VerifLexState{
+		Mode:  VerifModeName(lex.cs),
+		Top:   lex.top,
+		P:     lex.p,
+		Ts:    lex.ts,
+		Te:    lex.te,
+		Lines: len(lex.newLines.data),
+		Label: string(lex.heredocLabel),
+	}
+	for i := 0; i < lex.top && i < len(lex.stack); i++ {
+		st.Stack = append(st.Stack, VerifModeName(lex.stack[i]))
+	}
+	return st
+}
+
+// VerifPools returns the lexer's allocators.
+func (lex *Lexer) VerifPools() (*token.Pool, *position.Pool) {
+	return lex.tokenPool, lex.positionPool
+}
+
+// VerifLineStarts returns a copy of the recorded line-start offsets.
+func (lex *Lexer) VerifLineStarts() []int {
+	return append([]int(nil), lex.newLines.data...)
+}
+
+// VerifData returns a copy of the recorded line-start offsets of a NewLines.
+func (nl *NewLines) VerifData() []int {
+	return append([]int(nil), nl.data...)
+}
